@@ -131,3 +131,78 @@ def interpret(obj: Obj, facedim: Sym, axis_of_dim, sizes_unpadded: Optional[Dict
         else:
             raise Unmodelled(f"operation {op} in a halo lineage")
     return st
+
+
+def count_along(piece: Obj, dim, facedim, axis_of_dim):
+    """Symbolic length of a (non-CONCAT) piece along the dimension currently called `dim`."""
+    st = interpret(piece, facedim, axis_of_dim)
+    if dim not in st.names:
+        raise Unmodelled(f"piece has no dimension {dim!r}")
+    return st.sel[st.names[dim]].count
+
+
+def flatten_concat(obj: Obj, facedim, axis_of_dim):
+    """Leaves of a (nested) concatenation along one dimension, with slices applied to the concatenation pushed
+    down onto the leaves.  Returns (dim, [leaf Obj...]) ; a plain array returns (None, [obj])."""
+    if not (isinstance(obj, Obj) and obj.name == "CONCAT"):
+        return None, [obj]
+    dim = obj.attrs["dim"]
+    leaves = []
+    for p in obj.attrs["parts"]:
+        d2, sub = flatten_concat(p, facedim, axis_of_dim)
+        if d2 is not None and d2 != dim:
+            raise Unmodelled("nested concatenation along a different dimension")
+        leaves.extend(sub)
+    for e in obj.eff:
+        if e[0] != "isel":
+            if e[0] in ("squeeze", "drop_vars", "assign_coords", "expand_dims"):
+                continue
+            raise Unmodelled(f"operation {e[0]} applied to a concatenation")
+        for d, s in e[1].items():
+            if d != dim:
+                leaves = [l.with_eff(("isel", {d: s})) for l in leaves]
+                continue
+            if not isinstance(s, SliceV) or s.step not in (None, 1):
+                raise Unmodelled(f"indexer {s!r} applied along the concatenation dimension")
+            counts = [count_along(l, dim, facedim, axis_of_dim) for l in leaves]
+            total = Lin.of(0)
+            for c in counts:
+                total = total + c
+
+            def normalise(i, default):
+                if i is None:
+                    return default
+                li = Lin.of(i)
+                sg = sign(li)
+                if sg in ("pos", "zero", "nonneg"):
+                    return li
+                if sg == "neg":
+                    return total + li
+                raise Unmodelled(f"sign of slice bound {i!r} unknown")
+
+            lo_n, hi_n = normalise(s.lo, Lin.of(0)), normalise(s.hi, total)
+            off = Lin.of(0)
+            new = []
+            for l, c in zip(leaves, counts):
+                a = lo_n - off
+                b = hi_n - off
+                sa, sb = sign(a), sign(b)
+                s_ac, s_bc = sign(a - c), sign(b - c)
+                off = off + c
+                if s_ac in ("pos", "zero", "nonneg") or sb in ("neg", "zero", "nonpos"):
+                    continue  # entirely outside
+                if sa in ("neg", "zero", "nonpos"):
+                    llo = None
+                elif sa in ("pos", "nonneg"):
+                    llo = simplify(a)
+                else:
+                    raise Unmodelled("cannot place the lower bound of a slice of a concatenation")
+                if s_bc in ("pos", "zero", "nonneg"):
+                    lhi = None
+                elif s_bc in ("neg",):
+                    lhi = simplify(b)
+                else:
+                    raise Unmodelled("cannot place the upper bound of a slice of a concatenation")
+                new.append(l if (llo is None and lhi is None) else l.with_eff(("isel", {dim: SliceV(llo, lhi)})))
+            leaves = new
+    return dim, leaves
